@@ -66,8 +66,12 @@ func TestVerifC14ConnState(t *testing.T) {
 			if f := csFlat(b); len(f) > 0 {
 				first = csReqKey(f[0])
 			}
-			vfViol(fmt.Sprintf("C14:states got=%v want=%v [rmu=%v serve=%v maxReqs=%d first=%s n=%d]", states, b.States, b.Cfg.Rmu, b.Cfg.ViaServe, b.Cfg.MaxReqs, first, b.Nreq),
+			vfViol(fmt.Sprintf("C14:states got=%v want=%v [rmu=%v serve=%v perIP=%v maxReqs=%d first=%s n=%d]", states, b.States, b.Cfg.Rmu, b.Cfg.ViaServe, b.Cfg.PerIP, b.Cfg.MaxReqs, first, b.Nreq),
 				fmt.Sprintf("ConnState callbacks %v, specification requires %v", states, b.States), c)
+			return
+		}
+		if len(o.connIdentity) > 0 {
+			vfViol(fmt.Sprintf("C14:conn-identity [rmu=%v serve=%v perIP=%v]", b.Cfg.Rmu, b.Cfg.ViaServe, b.Cfg.PerIP), o.connIdentity[0], c)
 			return
 		}
 		if msg := c14ActiveNeedsByte(b, log); msg != "" {
